@@ -1,3 +1,5 @@
+//go:build !no_c08
+
 package props
 
 import (
